@@ -20,6 +20,9 @@ loader and its normalisers, UTF-8 decoding, `csv`.
 -/
 import NetaddrVerif.Model.Registry
 import NetaddrVerif.Lemmas.C19L
+import NetaddrVerif.Lemmas.C19LKey
+import NetaddrVerif.Lemmas.NetworkL
+import NetaddrVerif.Gen.Iana
 namespace NV.C19
 open NV NV.Registry
 
@@ -154,6 +157,27 @@ theorem query_piecewise_const (T : Tables) (a b : Addr) (hv : a.ver = b.ver) (ha
   rw [← hv, ← hm]
   rw [hrec T.ipv4 (by intro r hr; simp [hr]), hrec T.ipv6 (by intro r hr; simp [hr]),
     hrec T.ipv6u (by intro r hr; simp [hr]), hrec T.mcast (by intro r hr; simp [hr])]
+
+/-- `Key.first` / `Key.last` of a network key are netaddr's own `IPNetwork.first` / `.last`
+    (the C02 model, `Model/Network.lean`) whenever the value fits the family width -/
+theorem net_first_last (n : Net) (hv : n.val < 2 ^ width n.ver) :
+    Key.first (.net n) = n.first ∧ Key.last (.net n) = n.last := by
+  simp only [Key.first, Key.last, Net.first, Net.last, netFirst_eq _ _ _ hv, netLast_eq, and_self]
+
+/-- a row of the regenerated tables is a valid key: family 4/6, value inside the family,
+    prefix ≤ width, range ascending -/
+def validRow (r : Nat × Nat × Nat × Nat) : Bool :=
+  let (kind, ver, x, y) := r
+  (ver == 4 || ver == 6) && x < 2 ^ width ver &&
+    (if kind = 0 then y ≤ width ver else if kind = 1 then x ≤ y && y < 2 ^ width ver else kind == 2)
+
+/-- the shipped tables (as loaded by netaddr at import, regenerated every run) are valid keys;
+    IPv4 records are IPv4, the IPv6 ones IPv6, the multicast ones IPv4 -/
+theorem shipped_tables_valid :
+    (Gen.ianaIPv4.all (fun r => validRow r && r.2.1 == 4) &&
+     Gen.ianaIPv6.all (fun r => validRow r && r.2.1 == 6) &&
+     Gen.ianaIPv6Unicast.all (fun r => validRow r && r.2.1 == 6) &&
+     Gen.ianaMulticast.all (fun r => validRow r && r.2.1 == 4)) = true := by decide +kernel
 
 /-! ## index parsers -/
 
@@ -304,6 +328,60 @@ theorem iab_recKey (h b : Line) (t1 t2 : List Line)
 theorem iab_second_base16 (n : Int) (b : Line) (hb : hasBase16 b = true) :
     iabCont (.num n) b = .error .other := by
   simp [iabCont, hb]
+
+/-! ## which identifier a row carries -/
+
+/-- **OUI row key** (general form): `(hex)` line = optional whitespace, a token of hex digits and
+    hyphens, then whitespace or end of line ⇒ the key is the token's hexadecimal value -/
+theorem oui_key (pre tok rest : List Nat) (t : List Line) (hpre : ∀ b ∈ pre, isWsB b = true) (hid : IdTok tok)
+    (hne : dropHyphens tok ≠ []) (hrest : rest = [] ∨ ∃ s r, rest = s :: r ∧ isWsB s = true) :
+    recKey ouiStart ouiCont ((pre ++ tok ++ rest) :: t) = .ok (hexValue (dropHyphens tok) : Int) := by
+  rw [oui_recKey, ouiStart_spec pre tok rest hpre hid hne hrest]
+
+/-- **OUI row key** (the registry's own print format): a record whose first line starts with
+    `XX-XX-XX` + whitespace is indexed under exactly that 24-bit identifier -/
+theorem oui_key_canonical (p : Nat) (hp : p < 2 ^ 24) (s : Nat) (hs : isWsB s = true) (rest : List Nat)
+    (t : List Line) : recKey ouiStart ouiCont ((fmtOui p ++ s :: rest) :: t) = .ok (p : Int) := by
+  rw [oui_recKey, ouiStart_canonical p hp s hs rest]
+
+/-- **IAB row key** (general form): `(hex)` line with identifier token `p`, exactly one
+    `(base 16)` line whose first token is an identifier token `tok` ⇒ the key is
+    `hex(p without hyphens ++ tok up to its first hyphen) >> 12` -/
+theorem iab_key (pre1 p rest1 : List Nat) (pre2 tok rest2 : List Nat) (t1 t2 : List Line)
+    (hpre1 : ∀ b ∈ pre1, isWsB b = true) (hp : IdTok p) (hpne : p ≠ [])
+    (hrest1 : rest1 = [] ∨ ∃ s r, rest1 = s :: r ∧ isWsB s = true)
+    (h1 : ∀ l ∈ t1, hasBase16 l = false) (h2 : ∀ l ∈ t2, hasBase16 l = false)
+    (hb : hasBase16 (pre2 ++ tok ++ rest2) = true)
+    (hpre2 : ∀ b ∈ pre2, isWsB b = true) (hid : IdTok tok) (htne : tok ≠ [])
+    (hne : dropHyphens p ++ tok.takeWhile (· != 45) ≠ [])
+    (hrest2 : rest2 = [] ∨ ∃ s r, rest2 = s :: r ∧ isWsB s = true) :
+    recKey iabStart iabCont ((pre1 ++ p ++ rest1) :: (t1 ++ (pre2 ++ tok ++ rest2) :: t2)) =
+      .ok (.num ((hexValue (dropHyphens p ++ tok.takeWhile (· != 45)) : Int) >>> 12)) := by
+  rw [iab_recKey _ _ t1 t2 h1 h2 hb, firstTok_spec pre1 p rest1 hpre1 hp.noWs hpne hrest1]
+  have := iabCont_spec p hp pre2 tok rest2 hb hpre2 hid htne hne hrest2
+  unfold iabCont at this
+  simp only [hb, ↓reduceIte] at this
+  simpa [bind, Except.bind] using this
+
+/-- **IAB row key** (the registry's own print format): first line `XX-XX-XX` + whitespace,
+    then the `(base 16)` line `YYYZZZ-…` + whitespace, then lines without `(base 16)`:
+    the row is indexed under the 36-bit identifier `XXXXXXYYY` -/
+theorem iab_key_canonical (q v : Nat) (hq : q < 2 ^ 24) (hv : v < 2 ^ 24) (tail : List Nat) (htail : IdTok tail)
+    (s1 s2 : Nat) (hs1 : isWsB s1 = true) (hs2 : isWsB s2 = true) (rest1 rest2 : List Nat) (t2 : List Line)
+    (hb : hasBase16 (fmtHex6 v ++ 45 :: tail ++ s2 :: rest2) = true) (h2 : ∀ l ∈ t2, hasBase16 l = false) :
+    recKey iabStart iabCont ((fmtOui q ++ s1 :: rest1) :: (fmtHex6 v ++ 45 :: tail ++ s2 :: rest2) :: t2) =
+      .ok (.num ((q * 4096 + v / 4096 : Nat) : Int)) := by
+  have h := iab_recKey (fmtOui q ++ s1 :: rest1) (fmtHex6 v ++ 45 :: tail ++ s2 :: rest2) [] t2 (by simp) h2 hb
+  simp only [List.nil_append] at h
+  rw [h]
+  have hf := firstTok_spec [] (fmtOui q) (s1 :: rest1) (by simp) (fmtOui_idTok q).noWs (by simp [fmtOui])
+    (Or.inr ⟨s1, rest1, rfl, hs1⟩)
+  simp only [List.nil_append] at hf
+  rw [hf]
+  have hc := iabCont_canonical q v hq hv tail htail s2 hs2 rest2 hb
+  unfold iabCont at hc
+  simp only [hb, ↓reduceIte] at hc
+  simpa [bind, Except.bind] using hc
 
 /-! ## record retrieval (`_parse_data`) -/
 
@@ -654,6 +732,17 @@ example : WellFormed exHd exRecs where
     · exact ⟨_, _, rfl, by decide, by decide⟩
     · exact ⟨_, _, rfl, by decide, by decide⟩
   nonempty := by decide
+
+/-- the print formats of `oui_key_canonical` / `iab_key_canonical` are the registry's -/
+example : fmtOui 0xCAFE = bytes "00-CA-FE" ∧ fmtHex6 0xABC000 = bytes "ABC000" := by decide
+example : IdTok (bytes "ABCFFF") ∧
+    hasBase16 (fmtHex6 0xABC000 ++ 45 :: bytes "ABCFFF" ++ 32 :: bytes "    (base 16)\t\tACME\r\n") = true := by
+  constructor
+  · show ∀ b ∈ bytes "ABCFFF", b = 45 ∨ b ∈ hexDigitsB
+    decide
+  · decide
+example : recKey iabStart iabCont [bytes "00-50-C2   (hex)\t\tACME\r\n", bytes "ABC000-ABCFFF     (base 16)\t\tACME\r\n",
+    bytes "\t\t1 MAIN STREET\r\n"] = .ok (.num 0x0050C2ABC) := by decide +kernel
 
 example : ouiIndex (exHd ++ exRecs.flatten).flatten = .ok [(0xCAFE, 21, 83), (0x50C2, 104, 72)] := by decide +kernel
 example : iabIndex (exRecs.drop 1).flatten.flatten = .ok [(.num 0x0050C2ABC, 0, 72)] := by decide +kernel
